@@ -98,6 +98,10 @@ PARTIAL = [
     "T08.4 is the post-condition 'if the loop returns'",
 ]
 ASSUMPTIONS = [
+    "constructor keywords whose generated value equals the documented default (DOC_DEFAULTS, read off the signatures / "
+    "docstrings; default batch sizes: 64, resp. 4 + floor(3 ln n) for the strategies) are left out of the call, so the "
+    "defaults themselves run while oracle and model use the documented values; the arrays handed to tell / tell_dqd "
+    "are private copies that are overwritten with garbage right after the call",
     "inputs near the dtype's overflow threshold are outside the quantifier: e.g. IsoLineEmitter with elites at +-3e38 "
     "in a float32 archive (the direction p2 - p1 overflows) is not read as a violation of 'finite'",
     "a bounded OpenAI-ES whose Adam step moves the mean outside the box makes ask() resample indefinitely: the "
@@ -301,6 +305,57 @@ class Shadow:
         return self.rng.normal(loc=0.0, scale=scale, size=size).astype(dtype)
 
 
+# Documented defaults of the constructors (from the signatures / docstrings of ribs.emitters).  A keyword whose value in
+# the case EQUALS the documented default is left out of the call, so that the default itself is what runs while the
+# oracle and the model keep using the documented value; the generators draw the default values on purpose.
+DOC_DEFAULTS = {
+    "GaussianEmitter": {"x0": None, "initial_solutions": None, "bounds": None, "batch_size": 64, "seed": None},
+    "IsoLineEmitter": {"iso_sigma": 0.01, "line_sigma": 0.2, "x0": None, "initial_solutions": None, "bounds": None,
+                       "batch_size": 64, "seed": None},
+    "GeneticAlgorithmEmitter": {"x0": None, "initial_solutions": None, "bounds": None, "batch_size": 64,
+                                "operator_kwargs": None},
+    "GradientOperatorEmitter": {"initial_solutions": None, "x0": None, "line_sigma": 0.0, "measure_gradients": False,
+                                "normalize_grad": False, "epsilon": 1e-8, "operator_type": "isotropic", "bounds": None,
+                                "batch_size": 64, "seed": None},
+    "EvolutionStrategyEmitter": {"ranker": "2imp", "es": "cma_es", "es_kwargs": None, "selection_rule": "filter",
+                                 "restart_rule": "no_improvement", "bounds": None, "batch_size": None, "seed": None},
+    "GradientArborescenceEmitter": {"ranker": "2imp", "selection_rule": "filter", "restart_rule": "no_improvement",
+                                    "grad_opt": "adam", "grad_opt_kwargs": None, "es": "cma_es", "es_kwargs": None,
+                                    "normalize_grad": True, "bounds": None, "batch_size": None, "epsilon": 1e-8,
+                                    "seed": None},
+}
+
+
+def omit_defaults(cls_name, kwargs):
+    """kwargs without the keywords whose value equals the documented default (an empty dict counts as None)"""
+    out = {}
+    for k, v in kwargs.items():
+        if k in DOC_DEFAULTS[cls_name]:
+            d = DOC_DEFAULTS[cls_name][k]
+            if isinstance(v, dict) and not v:
+                v = None
+            same = (v is None and d is None) or (
+                v is not None and d is not None and not isinstance(v, (np.ndarray, list, tuple, dict)) and
+                not callable(v) and type(v) in (bool, int, float, str) and type(d) in (bool, int, float, str) and
+                isinstance(v, bool) == isinstance(d, bool) and v == d)
+            if same:
+                continue
+        out[k] = v
+    return out
+
+
+def default_batch(kind, dim):
+    """the documented default batch size: 64 for the operator emitters; for the evolution strategies the CMA-ES
+    population size 4 + floor(3 ln n) of the strategy's search space (made even by OpenAI-ES; the gradient
+    arborescence strategy searches the 1 + measure_dim = 3 coefficients)"""
+    if kind in ES_KINDS:
+        b = 4 + int(3 * np.log(dim))
+        return b + (b % 2) if kind == "openai_es" else b
+    if kind in GAE_KINDS:
+        return 4 + int(3 * np.log(3))
+    return 64
+
+
 def build(case):
     """Construct archive + emitter for a case.  Returns a dict of everything run_case needs."""
     from ribs import emitters as E
@@ -329,30 +384,32 @@ def build(case):
             "barg": barg, "es": None, "shadow": None, "sigma": sig, "line_sigma": lsig}
     sdt = D[sd]
     if kind == "gauss":
-        em = E.GaussianEmitter(arch, sigma=sig, x0=x0arg, initial_solutions=init_arg, bounds=barg, batch_size=batch,
-                               seed=seed)
+        em = E.GaussianEmitter(arch, **omit_defaults("GaussianEmitter", dict(
+            sigma=sig, x0=x0arg, initial_solutions=init_arg, bounds=barg, batch_size=batch, seed=seed)))
         info.update(shadow=Shadow(seed), scale=np.array(sig, dtype=sdt), op="gaussian", ek="gaussian")
     elif kind == "ga_gauss":
-        em = E.GeneticAlgorithmEmitter(arch, x0=x0arg, initial_solutions=init_arg, bounds=barg, batch_size=batch,
-                                       operator="gaussian", operator_kwargs={"sigma": sig, "seed": seed})
+        em = E.GeneticAlgorithmEmitter(arch, **omit_defaults("GeneticAlgorithmEmitter", dict(
+            x0=x0arg, initial_solutions=init_arg, bounds=barg, batch_size=batch, operator="gaussian",
+            operator_kwargs={"sigma": sig, "seed": seed})))
         info.update(shadow=Shadow(seed), scale=sig, op="gaussian", ek="gaGaussian")
     elif kind == "iso":
-        em = E.IsoLineEmitter(arch, iso_sigma=sig, line_sigma=lsig, x0=x0arg, initial_solutions=init_arg,
-                              bounds=barg, batch_size=batch, seed=seed)
+        em = E.IsoLineEmitter(arch, **omit_defaults("IsoLineEmitter", dict(
+            iso_sigma=sig, line_sigma=lsig, x0=x0arg, initial_solutions=init_arg, bounds=barg, batch_size=batch,
+            seed=seed)))
         info.update(shadow=Shadow(seed), scale=sdt(sig), lscale=sdt(lsig), op="isoline", ek="isoLine")
     elif kind == "ga_iso":
-        em = E.GeneticAlgorithmEmitter(arch, x0=x0arg, initial_solutions=init_arg, bounds=barg, batch_size=batch,
-                                       operator="isoline",
-                                       operator_kwargs={"iso_sigma": sig, "line_sigma": lsig, "seed": seed})
+        em = E.GeneticAlgorithmEmitter(arch, **omit_defaults("GeneticAlgorithmEmitter", dict(
+            x0=x0arg, initial_solutions=init_arg, bounds=barg, batch_size=batch, operator="isoline",
+            operator_kwargs={"iso_sigma": sig, "line_sigma": lsig, "seed": seed})))
         info.update(shadow=Shadow(seed), scale=sig, lscale=lsig, op="isoline", ek="gaIsoLine")
     elif kind in GOP_KINDS:
         line = kind.startswith("gop_line")
         mg = kind.endswith("_mg")
         sg = float(Fraction(case.get("sigma_g", "1/4")))
-        em = E.GradientOperatorEmitter(arch, sigma=sig, sigma_g=sg, x0=x0arg, initial_solutions=init_arg,
-                                       line_sigma=lsig, measure_gradients=mg, normalize_grad=case.get("norm", False),
-                                       operator_type="iso_line_dd" if line else "isotropic", bounds=barg,
-                                       batch_size=batch, seed=seed)
+        em = E.GradientOperatorEmitter(arch, **omit_defaults("GradientOperatorEmitter", dict(
+            sigma=sig, sigma_g=sg, x0=x0arg, initial_solutions=init_arg, line_sigma=lsig, measure_gradients=mg,
+            normalize_grad=bool(case.get("norm", False)), operator_type="iso_line_dd" if line else "isotropic",
+            bounds=barg, batch_size=batch, seed=seed)))
         info.update(shadow=Shadow(seed), scale=sdt(sig), lscale=lsig, gscale=sdt(sg), mg=mg,
                     op="gopline" if line else "gaussian", ek="gopAskDqd")
     elif kind in ES_KINDS:
@@ -366,21 +423,26 @@ def build(case):
             return holder[-1]
 
         kw = {}
-        if kind == "openai_es":
-            kw["mirror_sampling"] = bool(case.get("mirror", False))
+        if kind == "openai_es" and not bool(case.get("mirror", False)):
+            kw["mirror_sampling"] = False      # the strategy's documented default is mirror_sampling=True
         ranker = "nov" if case["arch"] == "prox" else case.get("ranker", "2imp")
-        em = E.EvolutionStrategyEmitter(arch, x0=x0, sigma0=sig, es=factory, es_kwargs=kw, bounds=barg,
-                                        batch_size=batch, seed=seed, ranker=ranker,
-                                        restart_rule=case.get("restart", "no_improvement"),
-                                        selection_rule=case.get("selection", "filter"))
-        info.update(es=holder[0], ek="evolutionStrategy")
+        # `es` is normally a factory so that the strategy object can be held for the resample lock step; with
+        # es_default the keyword is left out (documented default "cma_es") and only the observable clauses are read
+        es_arg = "cma_es" if (kind == "cma_es" and case.get("es_default")) else factory
+        em = E.EvolutionStrategyEmitter(arch, **omit_defaults("EvolutionStrategyEmitter", dict(
+            x0=x0, sigma0=sig, es=es_arg, es_kwargs=kw, bounds=barg,
+            batch_size=None if batch == default_batch(kind, dim) and kind != "lm_ma_es" else batch, seed=seed,
+            ranker=ranker, restart_rule=case.get("restart", "no_improvement"),
+            selection_rule=case.get("selection", "filter"))))
+        info.update(es=holder[0] if holder else None, ek="evolutionStrategy")
     elif kind in GAE_KINDS:
         ranker = "nov" if case["arch"] == "prox" else case.get("ranker", "2imp")
-        em = E.GradientArborescenceEmitter(arch, x0=x0, sigma0=sig, lr=float(Fraction(case.get("lr", "1/2"))),
-                                           grad_opt=case.get("grad_opt", "gradient_ascent"), batch_size=batch,
-                                           seed=seed, ranker=ranker, normalize_grad=case.get("norm", True),
-                                           restart_rule=case.get("restart", "no_improvement"),
-                                           selection_rule=case.get("selection", "filter"))
+        em = E.GradientArborescenceEmitter(arch, **omit_defaults("GradientArborescenceEmitter", dict(
+            x0=x0, sigma0=sig, lr=float(Fraction(case.get("lr", "1/2"))),
+            grad_opt=case.get("grad_opt", "gradient_ascent"),
+            batch_size=None if batch == default_batch(kind, dim) else batch, seed=seed, ranker=ranker,
+            normalize_grad=bool(case.get("norm", True)), restart_rule=case.get("restart", "no_improvement"),
+            selection_rule=case.get("selection", "filter"))))
         info.update(ek="gaeAsk", jdt=np.float32 if kind == "gae_j32" else np.float64)
     else:
         raise ValueError(kind)
@@ -515,6 +577,16 @@ def scribble(out, ctx):
         out[...] = 12345.5
         ctx.count("ask:returned-batch-overwritten")
     return keep
+
+
+def trash(handed, ctx):
+    """The caller reuses the arrays it handed to tell / tell_dqd (solution, objective, measures, jacobian, add_info):
+    they are overwritten with garbage; nothing the emitter emits later may depend on them."""
+    for a in handed:
+        for arr in (a.values() if isinstance(a, dict) else [a]):
+            if isinstance(arr, np.ndarray) and arr.flags.writeable and arr.size:
+                arr[...] = 777 if arr.dtype.kind in "iu" else -4321.75
+    ctx.count("tell:handed-arrays-overwritten")
 
 
 def clip_ask_step(info, case, drv, where, ctx, dqd=False):
@@ -664,7 +736,7 @@ def es_ask_step(info, case, drv, where, ctx):
     em, es = info["em"], info["es"]
     sd, dim, batch = case["sd"], case["dim"], case["batch"]
     lo, hi = em.lower_bounds, em.upper_bounds
-    native = case["kind"] != "pycma_es"
+    native = case["kind"] != "pycma_es" and es is not None
     twin = None
     if native:
         twin = copy.deepcopy(es)
@@ -779,7 +851,10 @@ def run_case(case, ctx):
                 else:
                     add_info = {"status": np.zeros(len(p)), "value": np.zeros(len(p))}
                 jac = rng_j.integers(-4, 5, size=(len(p), 3, dim)).astype(np.float64) / 4
-                em.tell_dqd(p, obj, meas, jac.copy(), add_info)
+                handed = [np.array(p, copy=True), np.array(obj, copy=True), np.array(meas, copy=True), jac.copy(),
+                          {k: np.array(v, copy=True) for k, v in add_info.items()}]
+                em.tell_dqd(*handed)
+                trash(handed, ctx)
                 was_empty = bool(arch.empty)
                 if info["mg"] and not (was_empty and info["init"] is not None):
                     info["shadow"].rng.normal(loc=0.0, scale=info["gscale"], size=(len(p), 3))  # keep in step
@@ -819,7 +894,10 @@ def run_case(case, ctx):
                 obj, meas = evaluate(p)
                 add_info = arch.add(p, obj, meas)
                 jac = (rng_j.integers(-4, 5, size=(1, 3, dim)) / 4).astype(info["jdt"])
-                em.tell_dqd(p, obj, meas, jac.copy(), add_info)
+                handed = [np.array(p, copy=True), np.array(obj, copy=True), np.array(meas, copy=True), jac.copy(),
+                          {k: np.array(v, copy=True) for k, v in add_info.items()}]
+                em.tell_dqd(*handed)
+                trash(handed, ctx)
                 out = em.ask()
                 f = oracle_array(where + " ask", out, batch, dim, sd, lo, hi)
                 if f is not None:
@@ -841,7 +919,10 @@ def run_case(case, ctx):
             elif len(out):
                 add_info = arch.add(out, obj, meas)
                 try:
-                    em.tell(out, obj, meas, add_info)
+                    handed = [np.array(out, copy=True), np.array(obj, copy=True), np.array(meas, copy=True),
+                              {k: np.array(v, copy=True) for k, v in add_info.items()}]
+                    em.tell(*handed)
+                    trash(handed, ctx)
                 except Exception as ex:  # pylint: disable=broad-except
                     # C08 constrains what ask returns; a raising tell is another property's business (C18: the
                     # bounded non-mirror OpenAI-ES noise bookkeeping).  The history cannot continue: stop here.
@@ -925,6 +1006,14 @@ def make_gen(points, n_iter_lo, n_iter_hi):
             zero = rng.random() < 0.35
             case["sigma"] = "0" if zero else rng.choice(["1/4", "1/2", "1/64", "3/10", "2"])
             case["line_sigma"] = "0" if zero else rng.choice(["1/2", "1/5", "1"])
+            # documented defaults are drawn on purpose (their keywords are then left out of the constructor call):
+            # IsoLineEmitter iso_sigma=0.01 / line_sigma=0.2, GradientOperatorEmitter line_sigma=0.0, batch_size=64
+            if kind == "iso" and not zero and rng.random() < 0.3:
+                case["sigma"], case["line_sigma"] = "1/100", "1/5"
+            if kind in GOP_KINDS and rng.random() < 0.3:
+                case["line_sigma"] = "0"
+            if rng.random() < 0.08:
+                batch = 64
             if rng.random() < 0.3:
                 case["init"] = [[dy(rng, -12, 12) for _ in range(dim)] for _ in range(rng.randint(1, 4))]
                 # handed over as an ndarray of exactly the solution dtype (most often), a list, or an ndarray of
@@ -960,6 +1049,13 @@ def make_gen(points, n_iter_lo, n_iter_hi):
             case["restart"] = rng.choice(["no_improvement", "basic", 1, 2, 3])
             case["selection"] = rng.choice(["filter", "mu"])
             case["ranker"] = rng.choice(["2imp", "imp", "obj"])
+        if kind in ES_KINDS and kind != "lm_ma_es" and case["bounds"] not in ("narrow", "tight") and \
+                rng.random() < 0.2:
+            batch = default_batch(kind, dim)        # batch_size=None: the strategy's documented default
+        if kind == "cma_es" and rng.random() < 0.3:
+            case["es_default"] = True               # es left out: the documented default "cma_es"
+        if kind in GAE_KINDS and rng.random() < 0.25:
+            batch = default_batch(kind, dim)
         case["batch"] = batch
         tag = "/".join(str(case[k]) for k in ("kind", "sd", "md", "bounds", "arch", "state", "dim", "batch", "seed"))
         n_iter = rng.randint(n_iter_lo, n_iter_hi)
